@@ -17,7 +17,7 @@ TEMPLATES_BYTES = [
     'a[i:j]', 'a[i:]', 'a[:j]', 'a[-2:]', 'a[:-1]', 'a[i:i + 2]', 'a[j:i]', 'a + b', 'a == b', 'a != b', 'b in a', 'b not in a',
     'a.startswith(b)', 'a.endswith(b)', 'len(a)', 'not a', 'a[i:i + 1] == b', 'a.find(b)', 'len(a[i:j])', 'a[i:j] + b[j:]',
     '(a if i < j else b)', 'a and b', 'a or b', 'bool(a)', 'a[i:j] == b[i:j]', 'min(i, j)', 'max(i, j, 3)', 'i - j', 'i * 2 + j',
-    'i < j <= 5', 'i == j', 'not i', 'len(a) - i', 'a[len(a) - 1:]', 'a.split(b"x", 1)[0]', 'len(a.split(b"x", 1))', 'b * 2',
+    'i < j <= 5', 'i == j', 'not i', 'len(a) - i', 'a[len(a) - 1:]', 'a.split(b"x", 1)[0]', 'a.split(b"x")[-1]', 'a.split(b"x")[0]', 'len(a.split(b"x", 1))', 'b * 2',
     'a[i:j] == b"" ', '-i', 'i >= j or a == b', 'i > 0 and j > 0',
 ]
 TEMPLATES_STR = [t.replace('b"x"', '"x"').replace('b""', '""') for t in TEMPLATES_BYTES] + ['a[i:j] in b', '"x" in a', 'a[0:1] == "x"']
@@ -41,22 +41,24 @@ class _Concrete(Contract):
 
     def post(self, X, ret):
         self.result = ('ret', ret)
+        self.pc = list(X.pc)      # relational models (fresh value + constraints) are evaluated under the path condition
 
     def post_raise(self, X, exc):
         self.result = ('raise', exc.pyclass)
 
 
-def _concretise(v):
+def _concretise(v, pc=()):
     if isinstance(v, VNone):
         return None
     if isinstance(v, (VTuple, VList)):
-        return type([] if isinstance(v, VList) else ())(_concretise(i) for i in v.items)
+        return type([] if isinstance(v, VList) else ())(_concretise(i, pc) for i in v.items)
     t = z3.simplify(v.t)
     if not (z3.is_int_value(t) or z3.is_true(t) or z3.is_false(t) or z3.is_string_value(t)):
         # a ground term that simplify() leaves unevaluated (e.g. IndexOf over unit sequences): ask a solver for its value
         sv = z3.Solver()
         k = z3.FreshConst(t.sort(), 'val')
         sv.add(k == t)
+        sv.add(*pc)
         if sv.check() == z3.sat:
             t = z3.simplify(sv.model().eval(k, model_completion=True))
     if isinstance(v, VInt):
@@ -68,8 +70,12 @@ def _concretise(v):
     if isinstance(v, VBytes):
         from vlib.modelutil import as_bytes
         s = z3.Solver()
-        s.check()
-        r = as_bytes(s.model(), t)
+        k = z3.FreshConst(t.sort(), 'val')
+        s.add(k == t)          # ground term: its value is whatever the solver's theory says it is
+        s.add(*pc)
+        if s.check() != z3.sat:
+            return ('?', str(t))
+        r = as_bytes(s.model(), k)
         return r if r is not None else ('?', str(t))
     return ('?', type(v).__name__)
 
@@ -102,7 +108,7 @@ def run(n_per_template=12, seed=0):
                         continue
                     got = c.result
                     if got[0] == 'ret':
-                        got = ('ret', _concretise(got[1]))
+                        got = ('ret', _concretise(got[1], getattr(c, 'pc', ())))
                     checked += 1
                     w = want
                     if w[0] == 'ret' and isinstance(w[1], bool) and got[0] == 'ret' and isinstance(got[1], bool):
